@@ -105,6 +105,12 @@ func (t *T) Event(kind string, a, b uint64) {
 	}
 }
 
+// Hash is a log entry that is only hashed (callers render it with Note when Keep is set).
+func (t *T) Hash(a, b uint64) {
+	t.Out.Steps++
+	t.Out.Digest = Mix(Mix(t.Out.Digest, a), b)
+}
+
 // Note adds a rendered line that is not part of the digest (explanations).
 func (t *T) Note(format string, a ...interface{}) {
 	if t.Keep && len(t.Out.Lines) <= t.maxLines {
